@@ -34,7 +34,10 @@ def encode(*args, to_base64=False):
             for y in range(0, total_length // 255):
                 encoded = encoded + tag + b"\xFF" + data[y * 255 : (y + 1) * 255]
             remaining = total_length % 255
-            encoded = encoded + tag + struct.pack("B", remaining) + data[-remaining:]
+            if remaining:
+                encoded = (
+                    encoded + tag + struct.pack("B", remaining) + data[-remaining:]
+                )
 
         pieces.append(encoded)
 
